@@ -1,5 +1,9 @@
 use mcv::ev::Ctx;
 
+#[cfg(not(miri))]
+#[global_allocator]
+static GLOBAL: mcv::alloc::Counting = mcv::alloc::Counting;
+
 fn main() {
     let args: Vec<String> = std::env::args().collect();
     if args.len() < 2 {
@@ -14,6 +18,11 @@ fn main() {
         "lin" => mcv::lin::run(&ctx),
         "evict" => mcv::evict::run_c14(&ctx),
         "acct" => mcv::evict::run_c15(&ctx),
+        "backpressure" => mcv::l3::run_backpressure(&ctx),
+        "bloat" => mcv::l3::run_bloat(&ctx),
+        "pipe" => mcv::l3::run_c12(&ctx),
+        "toolarge" => mcv::l3::run_c13(&ctx),
+        "sockframe" => mcv::l3::run_sock_frames(&ctx),
         "frame" => mcv::frame::run_c09(&ctx),
         "hostile" => mcv::frame::run_c10(&ctx),
         _ => {
